@@ -28,6 +28,7 @@ class Case:
         self._ppos = {p: j for j, p in enumerate(self.props)}
         self._ctx = None
         self._ref = None
+        self.keep = []          # results a check wants to stay referenced while later cases run
 
     @property
     def ctx(self):
@@ -37,6 +38,8 @@ class Case:
             if self.variant == 'truthy-cells':     # cells count by truthiness, whatever their type
                 rows = [[(3 if j % 2 else 2) if b else 0 for j, b in enumerate(r)] for r in rows]
             self._ctx = concepts.Context(self.objs, self.props, rows)
+            if self.variant == 'used':
+                stir(self._ctx)
         return self._ctx
 
     def fresh_ctx(self):
@@ -56,7 +59,7 @@ class Case:
         trip of the computed lattice, 'fromdict-raw' = reloaded from the serialized
         dict with the stored order reversed and raw=True."""
         if getattr(self, '_lat', None) is None:
-            if self.variant in ('fresh', 'truthy-cells'):
+            if self.variant in ('fresh', 'truthy-cells', 'used'):
                 self._lat = self.ctx.lattice
             elif self.variant == 'pickle':
                 import pickle
@@ -137,6 +140,87 @@ class Case:
                 f'c = concepts.Context(objects, properties, rows)\n')
 
 
+def stir(ctx, rounds=1):
+    """A history of read-only public calls on one context and its lattice ("start from
+    non-initial states too"): every query family once, with closed and non-closed, valid
+    and unknown arguments, lazily consumed and abandoned iterators, exports and a pickle.
+    None of it may change what any later query answers; whatever a call does here
+    (including raising) is outside the property under check - only its effect on the
+    state of the objects matters, so every call is individually guarded."""
+    import io
+    import itertools
+    import pickle
+
+    def g(f, *a, **k):
+        try:
+            return f(*a, **k)
+        except Exception:
+            return None
+
+    objs, props = tuple(ctx.objects), tuple(ctx.properties)
+    for _ in range(rounds):
+        g(ctx.intension, ['\x00nobody']); g(ctx.extension, ['\x00nothing'])
+        g(ctx.__getitem__, ('\x00nobody',)); g(ctx.neighbors, ['\x00nobody'])
+        g(ctx.intension, objs[:1] + props[:1]); g(ctx.extension, props[:1] + objs[:1])
+        for r in (0, 1, 2):
+            for sub in itertools.combinations(objs[:5], r):
+                g(ctx.intension, sub); g(ctx.intension, sub, raw=True)
+                g(ctx.neighbors, sub); g(ctx.neighbors, sub, raw=True)
+                if sub:
+                    g(ctx.__getitem__, sub)
+            for sub in itertools.combinations(props[:5], r):
+                g(ctx.extension, sub); g(ctx.extension, sub, raw=True)
+                if sub:
+                    g(ctx.__getitem__, sub)
+        g(ctx.intension, objs); g(ctx.extension, props)
+        g(lambda: (ctx.bools, ctx.shape, ctx.fill_ratio, str(ctx), repr(ctx), ctx.crc32()))
+        g(lambda: [list(ctx.relations(include_unary=u)) and str(ctx.relations(include_unary=u))
+                   for u in (False, True)])
+        g(ctx.definition); g(ctx.copy); g(lambda: ctx == ctx.copy())
+        for f in ('table', 'cxt', 'csv', 'python-literal', 'fimi', 'wiki-table'):
+            g(ctx.tostring, f)
+        g(ctx.todict, ignore_lattice=True)
+        lat = g(lambda: ctx.lattice)
+        if lat is None:
+            continue
+        g(ctx.todict); g(ctx.tojson, io.StringIO()); g(pickle.dumps, ctx); g(pickle.dumps, lat)
+        g(lambda: pickle.loads(pickle.dumps(ctx)).lattice)
+        cs = g(lambda: list(lat)[:10]) or []
+        g(lambda: (len(lat), str(lat), repr(lat), lat.infimum, lat.supremum, lat.atoms))
+        g(lat.__getitem__, ()); g(lat.__getitem__, 0); g(lat.__getitem__, -1)
+        g(lat.__getitem__, ('\x00nobody',)); g(lat.__call__, ('\x00nothing',)); g(lat.__call__, ())
+        g(lat.join, [None]); g(lat.upset_union, [None])
+        for r in (1, 2):
+            for sub in itertools.combinations(objs[:5], r):
+                g(lat.__getitem__, sub)
+            for sub in itertools.combinations(props[:5], r):
+                g(lat.__getitem__, sub); g(lat.__call__, sub)
+        for x in cs:
+            g(lambda: (str(x), repr(x), x.extent, x.intent, x.objects, x.properties, x.atoms,
+                       x.index, x.dindex, x.upper_neighbors, x.lower_neighbors, x.minimal()))
+            it = g(x.attributes)
+            g(lambda: next(it))                     # abandoned after one item
+            g(lambda: list(itertools.islice(x.attributes(), 3)))
+            up, down = g(x.upset), g(x.downset)
+            g(lambda: next(up)); g(lambda: next(down))      # left half-consumed
+            g(lambda: (list(x.upset()), list(x.downset())))
+            for y in cs:
+                g(lambda: (x | y, x & y, x.join(y), x.meet(y), lat.join([x, y]), lat.meet([x, y]),
+                           x <= y, x < y, x >= y, x > y, x.implies(y), x.subsumes(y),
+                           x.properly_implies(y), x.properly_subsumes(y), x.incompatible_with(y),
+                           x.complement_of(y), x.subcontrary_with(y), x.orthogonal_to(y)))
+        g(lat.join, []); g(lat.meet, []); g(lat.join, cs); g(lat.meet, cs)
+        g(lat.join, iter(cs[:3])); g(lat.meet, iter(cs[:3]))
+        u, d = g(lat.upset_union, cs[1:4]), g(lat.downset_union, cs[1:4])
+        g(lambda: next(u)); g(lambda: next(d))
+        g(lambda: (list(lat.upset_union(cs[:3] + cs[:1])), list(lat.downset_union(cs[:3] + cs[:1])),
+                   list(lat.upset_union([])), list(lat.downset_union([]))))
+        g(lambda: lat.graphviz().source)
+        g(lambda: lat.graphviz(make_object_label=','.join, make_property_label='|'.join).source)
+        g(lambda: list(reversed(lat))); g(lambda: cs[0] in lat); g(lambda: lat == lat)
+    return ctx
+
+
 def sibling_schedule(case):
     """Two live contexts over the SAME labels with different tables, created
     back to back before either is used (e.g. Context(*definition) after editing a
@@ -213,7 +297,11 @@ def labelings_for(tag, both=True):
 # library may keep process-global state (class-level defaults, caches), so the
 # "state" a case starts from includes its predecessors.  A violation records
 # them and the replay re-executes them first.
-RECENT = collections.deque(maxlen=3)
+RECENT = collections.deque(maxlen=6)
+# ... and the last three Case objects (contexts, lattices and whatever results the check put
+# into ``case.keep``) stay referenced while their successors run: predecessors one to three
+# steps back are alive, older ones have been collected - both situations occur for every case.
+ALIVE = collections.deque(maxlen=3)
 
 
 VARIANT_CELLS = 9     # tables up to this many cells are also explored through the variants
@@ -243,6 +331,11 @@ def run_shard_generic(shard, tier, prop, check_case, both_labelings=True,
                 ctr['hit_variant_' + variant] += 1
             try:
                 vs = check_case(case, ctr)
+                if variant == 'used' and not vs:
+                    # the check's own queries are a history too: same objects, second pass
+                    vs = check_case(case, ctr)
+                    for v in vs:
+                        v['clause'] += '@second-pass'
             except RefError as e:
                 raise common.HarnessError(f'{prop}: {e} on {tag}')
             except common.HarnessError:
@@ -257,6 +350,7 @@ def run_shard_generic(shard, tier, prop, check_case, both_labelings=True,
                 v['case']['after'] = [dict(x) for x in RECENT]
             RECENT.append({'tag': list(case.tag), 'labeling': case.labeling,
                            'variant': case.variant})
+            ALIVE.append(case)
             if first:
                 first = False
                 ctr['tables'] += 1
@@ -295,15 +389,22 @@ def replay_e1(mod, v):
     import collections as _c
     ctr = _c.Counter()
     for prev in v['case'].get('after', ()):      # predecessors in the same process first
+        pcase = case_from_ident(prev)
         try:
-            mod.check_case(case_from_ident(prev), ctr)
+            mod.check_case(pcase, ctr)
         except (RefError, common.HarnessError):
             raise
         except Exception:
             pass
+        ALIVE.append(pcase)
     case = case_from_ident(v['case'])
     try:
-        return mod.check_case(case, ctr)
+        vs = mod.check_case(case, ctr)
+        if case.variant == 'used' and not vs:
+            vs = mod.check_case(case, ctr)
+            for x in vs:
+                x['clause'] += '@second-pass'
+        return vs
     except (RefError, common.HarnessError):
         raise
     except ForeignLabel as e:
